@@ -23,7 +23,7 @@ CLAIMED = {
  'C10': dict(engine='history_sim', cat='exploration', ref='DESIGN.md 3.5',
    text='1-4 simulated client threads run scripts of library calls; exactly one holds the baton and a seeded scheduler picks the next holder at every yield point (call entry/exit, every objective / sweep / basis callback, every random draw); the scheduler also reseeds / advances / restores the global NumPy generator, jumps the clock and pollutes the module-level default dictionaries; every result is compared bit for bit with the same call executed in isolation in a canonical world.',
    note='Trusted: result digests (bytes of every array). Overlapping calls of the same function that both rely on the same omitted default dictionary are out of scope (DESIGN 3.5).',
-   technique=TECH + ': baton-passing client threads under a seeded scheduler, global-state perturbation faults (generator, clock, default dictionaries, poisoned uninitialised memory, injected LAPACK failures, warm versus fresh process), isolated-execution reference'),
+   technique=TECH + ': baton-passing client threads under a seeded scheduler, global-state perturbation faults (generator, clock, default dictionaries, poisoned uninitialised memory, injected LAPACK failures, rare extreme draws on the generator seam, warm versus fresh process), isolated-execution reference'),
  'C14': dict(engine='sampler_sim', cat='exploration', ref='DESIGN.md 3.6',
    text='The simulator supplies the generator object behind `seed` and thereby decides every draw: for each sampled tensor the sampler is steered through every multi-index and the product of the recorded conditional probabilities must equal entry/sum (resp. squared entry / sum of squares); adversarial draw schedules (extremes, ties, repeats) check shapes, bounds, uniqueness, Latin-hypercube counts and the sample_tt block layout; a chi-square run with a real PCG64 generator is the protocol-independent fallback.',
    note='Trusted: dense evaluation of the tensor, the SimGen generator stub honouring the numpy Generator contract. Exhaustive over multi-indices per sampled tensor (<= 300 entries); tensors are sampled.',
